@@ -213,12 +213,17 @@ class NetworkGraph(AbstractBaseIR):
                     else:
                         scalar_edges.append((s, t, e))
 
+                # every delayed connection gets buffer variables of its own: connections that leave the same variable
+                # with different delays must not share (and overwrite) one buffer
+                n_delayed = 0
                 for s, t, e in matrix_edges + global_edges:
                     d = self.edges[s, t, e].get('delay')
                     v = self.edges[s, t, e].get('spread')
                     if d is not None and d > self.step_size:
                         self._add_matrix_delay(node_name, op_name, var_name, (s, t, e),
-                                               d, v, dde_approx=dde_approx)
+                                               d, v, dde_approx=dde_approx,
+                                               buffer_id=f"_c{n_delayed}" if n_delayed else "")
+                        n_delayed += 1
 
                 if not scalar_edges:
                     continue
